@@ -40,6 +40,9 @@ def alphabet() -> List[Tuple[str, bytes, int, bool]]:
         ("qm-ptr+qu-srv", q([("Q", TA, 12, 1), ("Q", S1.name, 33, 0x8001)]), 5353, True),
         ("qm-ptr+txt", q([("Q", TA, 12, 1), ("Q", S1.name, 16, 1)]), 5353, False),
         ("qm-ptr/ka", q([("Q", TA, 12, 1)], answers=[("PTR", TA, 1, 4500, S1.name)]), 5353, False),
+        # a query whose known answer carries the cache-flush bit (it should not, RFC 6762 s.7.1 - but it is a datagram)
+        ("qm-ptr+a/ka-flush", q([("Q", TA, 12, 1), ("Q", S1.server, 1, 1)],
+                                answers=[("TXT", S1.name, 0x8001, 4500, b"\x03old")]), 5353, False),
         ("r-ptr-z", wire.response([("PTR", TB, 1, 4500, Z)]), 5353, False),
         ("r-bye-z", wire.response([("PTR", TB, 1, 0, Z)]), 5353, False),
         ("r-ptr-y+srv", wire.response([("PTR", TB, 1, 4500, Y), ("SRV", Y, 0x8001, 120, 0, 0, 9, "hy.local."),
